@@ -27,7 +27,7 @@ ASSUMPTIONS = [
     "name-based resolution of helper lambdas and local aliases inside the anchor functions",
 ]
 
-MIN_INSTANCES = {"R-01a": 60, "R-01b": 40, "R-01c": 30, "R-01d": 6, "R-01g": 3, "R-01h": 4}
+MIN_INSTANCES = {"R-01i": 10, "R-01f": 70, "R-01e": 60, "R-01a": 60, "R-01b": 40, "R-01c": 30, "R-01d": 6, "R-01g": 3, "R-01h": 4}
 
 
 # ----------------------------------------------------------------------------------------------- R-01a
@@ -663,4 +663,253 @@ def r01h(model, ctx):
                       f"{rel}:{aug.lineno}")
 
 
-RULES = [("R-01a", r01a), ("R-01b", r01b), ("R-01c", r01c), ("R-01d", r01d), ("R-01g", r01g), ("R-01h", r01h)]
+# ----------------------------------------------------------------------------------------------- R-01e
+
+def _ref_shape(sym, arity, a, b, sa, sb):
+    """documented result shapes (docs/reference: Value.__add__ ... docstrings), as max-plus terms"""
+    from ..engine.norm import MP
+    def unify():
+        if not sa and not sb:
+            return a.max(b), False
+        return (a + (0 if sa else 1)).max(b + (0 if sb else 1)), True
+    if arity == 1:
+        return {"~": (a, sa), "+": (a, sa), "-": (a + 1, True), "b": (MP.const(1), False), "r|": (MP.const(1), False),
+                "r&": (MP.const(1), False), "r^": (MP.const(1), False), "u": (a, False), "s": (a, True)}[sym]
+    if sym == "+":
+        w, s_ = unify()
+        return w + 1, s_
+    if sym == "-":
+        w, s_ = unify()
+        return w + 1, True
+    if sym == "*":
+        return a + b, sa or sb
+    if sym == "//":
+        return a + (1 if sb else 0), sa or sb
+    if sym == "%":
+        return b, sb
+    if sym in ("==", "!=", "<", "<=", ">", ">="):
+        return MP.const(1), False
+    if sym in ("&", "|", "^"):
+        return unify()
+    if sym == "<<":
+        return a + MP.sym("2**b") - 1, sa
+    if sym == ">>":
+        return a, sa
+    raise AnalysisError(f"no documented shape for {sym!r}/{arity}")
+
+
+def r01e(model, ctx):
+    from itertools import product
+    from ..engine.norm import MP
+    from ..engine.shapeeval import ShapeEval, ShapeV, _Raise
+    R = "R-01e"
+    shape_fn = model.func(f"{AST_PY}::Operator.shape")
+    funcs = {"Shape._unify": model.func(f"{AST_PY}::Shape._unify")}
+    uni, _ = interp.operator_universe(model)
+    keys = sorted(set(uni) | {("+", 1)})
+    n = 0
+    for sym, arity in keys:
+        for signs in product([False, True], repeat=arity):
+            if sym in ("<<", ">>") and signs[1]:
+                continue      # shift amounts are unsigned (constructor raises / asserts)
+            a, b = MP.sym("a"), MP.sym("b")
+            ops = [ShapeV(a, signs[0])] + ([ShapeV(b, signs[1])] if arity == 2 else [])
+            lower = {"a": 1 if signs[0] else 0, "b": (1 if signs[1] else 0) if arity == 2 else 0, "2**b": 1}
+            ev = ShapeEval(funcs)
+            where = f"{AST_PY}:{shape_fn.lineno}"
+            cons = f"Operator.shape:{sym}/{arity}:{''.join('s' if x else 'u' for x in signs)}"
+            try:
+                got = ev.call(shape_fn, [], selfobj={"operator": sym, "operands": ops}, preset={"op_shapes": ops})
+            except _Raise:
+                if (sym, arity) == ("+", 1):
+                    continue
+                ctx.viol(R, cons, f"Operator.shape raises for {sym!r} with {arity} operand(s)", where)
+                continue
+            need(isinstance(got, ShapeV), f"Operator.shape returned {got!r} for {cons}")
+            rw, rs = _ref_shape(sym, arity, a, b, signs[0], signs[1] if arity == 2 else False)
+            ok = got.signed == rs and got.width.key(lower) == rw.key(lower)
+            n += 1
+            ctx.check(ok, R, cons, f"{got!r}",
+                      f"Operator.shape gives {got!r} for operator {sym!r} on "
+                      f"({'signed' if signs[0] else 'unsigned'}(a)" + (f", {'signed' if signs[1] else 'unsigned'}(b))" if arity == 2 else ")") +
+                      f"; the documented shape is {'signed' if rs else 'unsigned'}({rw.prune(lower).text()}) — a narrower shape cannot "
+                      f"hold the exact result, a wider/differently signed one changes every downstream width", where)
+    need(n >= 60, f"only {n} (operator, signedness) cases evaluated")
+    # shapes of the non-operator value kinds
+    SIMPLE = {"Slice.shape": "Shape(self.stop - self.start)", "Part.shape": "Shape(self.width)",
+              "Concat.shape": "Shape(sum((len(part) for part in self.parts)))",
+              "SwitchValue.shape": "Shape._unify((value.shape() for (_patterns, value) in self._cases))"}
+    for q, exp in SIMPLE.items():
+        f = model.func(f"{AST_PY}::{q}")
+        got = [unparse(s_.value) for s_ in f.body if isinstance(s_, ast.Return)]
+        got = [g.replace("for _patterns, value in", "for (_patterns, value) in") for g in got]
+        ctx.check(got == [exp], R, q, exp, f"{q} must be `{exp}` (unsigned, exactly the selected/concatenated/unified width); found {got}",
+                  f"{AST_PY}:{f.lineno}")
+    f = model.func(f"{AST_PY}::ArrayProxy.shape")
+    t = unparse(f)
+    ok = "Shape._unify" in t and "elem" in t
+    ctx.check(ok, R, "ArrayProxy.shape", "unification of the element shapes", "ArrayProxy.shape must unify the shapes of its elements",
+              f"{AST_PY}:{f.lineno}")
+
+
+# ----------------------------------------------------------------------------------------------- R-01f
+
+FWD = {"__add__": "+", "__sub__": "-", "__mul__": "*", "__floordiv__": "//", "__mod__": "%", "__eq__": "==", "__ne__": "!=",
+       "__lt__": "<", "__le__": "<=", "__gt__": ">", "__ge__": ">=", "__and__": "&", "__or__": "|", "__xor__": "^",
+       "__lshift__": "<<", "__rshift__": ">>"}
+REFL = {"__radd__": "+", "__rsub__": "-", "__rmul__": "*", "__rfloordiv__": "//", "__rmod__": "%", "__rand__": "&", "__ror__": "|",
+        "__rxor__": "^", "__rlshift__": "<<", "__rrshift__": ">>"}
+UNARY = {"__neg__": "-", "__invert__": "~", "bool": "b", "any": "r|", "all": "r&", "xor": "r^", "as_unsigned": "u", "as_signed": "s"}
+# the method a ValueCastable may implement to override a forward method (Python's reflected-operand protocol)
+OVERRIDE = {"__add__": "__radd__", "__sub__": "__rsub__", "__mul__": "__rmul__", "__floordiv__": "__rfloordiv__", "__mod__": "__rmod__",
+            "__eq__": "__eq__", "__ne__": "__ne__", "__lt__": "__gt__", "__le__": "__ge__", "__gt__": "__lt__", "__ge__": "__le__",
+            "__and__": "__rand__", "__or__": "__ror__", "__xor__": "__rxor__", "__lshift__": "__rlshift__", "__rshift__": "__rrshift__"}
+
+
+def r01f(model, ctx):
+    R = "R-01f"
+    c = model.cls(f"{AST_PY}::Value")
+    ms = model.class_methods(c)
+    for table, order, kind in ((FWD, ["self", "other"], "forward"), (REFL, ["other", "self"], "reflected"), (UNARY, ["self"], "unary")):
+        for name, sym in table.items():
+            fn = ms.get(name)
+            need(fn is not None, f"Value.{name} not found")
+            rets = [s_ for s_ in ast.walk(fn) if isinstance(s_, ast.Return) and isinstance(s_.value, ast.Call) and dotted(s_.value.func) == "Operator"]
+            ok = len(rets) == 1
+            got = unparse(rets[0].value) if rets else "-"
+            if ok:
+                call = rets[0].value
+                ok = const_str(call.args[0]) == sym and isinstance(call.args[1], ast.List) and [unparse(e) for e in call.args[1].elts] == order
+            ctx.check(ok, R, f"Value.{name}", f"Operator({sym!r}, [{', '.join(order)}])",
+                      f"Value.{name} must build Operator({sym!r}, [{', '.join(order)}]) ({kind}); found {got}", f"{AST_PY}:{fn.lineno}")
+            if kind == "forward":
+                decs = [d for d in fn.decorator_list if isinstance(d, ast.Call) and dotted(d.func) == "_overridable_by_reflected"]
+                okd = len(decs) == 1 and const_str(decs[0].args[0]) == OVERRIDE[name]
+                ctx.check(okd, R, f"Value.{name}:override", f"overridable by {OVERRIDE[name]}",
+                          f"Value.{name} must defer to a ValueCastable's {OVERRIDE[name]} (the mirrored method: a < b is b > a); found "
+                          f"{[unparse(d) for d in fn.decorator_list]}", f"{AST_PY}:{fn.lineno}")
+    fo = model.func(f"{AST_PY}::_overridable_by_reflected.decorator.wrapper")
+    t = unparse(fo)
+    ok = "res = getattr(other, method_name)(self)" in t and "if res is not NotImplemented:\n            return res" in t.replace("\n", "\\n") or \
+        ("res = getattr(other, method_name)(self)" in t and "return f(self, other)" in t)
+    ctx.check(ok, R, "_overridable_by_reflected", "other.<reflected>(self) unless NotImplemented, else f(self, other)",
+              "the override wrapper must call getattr(other, method_name)(self) and fall back to f(self, other)", f"{AST_PY}:{fo.lineno}")
+    # ArrayProxy forwards every operator to the method of the same name
+    ap = model.cls(f"{AST_PY}::ArrayProxy")
+    n = 0
+    for name, v in model.class_assigns(ap).items():
+        if isinstance(v, ast.Call) and dotted(v.func) == "_proxy_value":
+            n += 1
+            ctx.check(const_str(v.args[0]) == name, R, f"ArrayProxy.{name}", "proxies the method of the same name",
+                      f"ArrayProxy.{name} proxies Value.{const_str(v.args[0])}", f"{AST_PY}:{v.lineno}")
+    need(n >= 40, f"only {n} ArrayProxy proxies found")
+    missing = [k for k in list(FWD) + list(REFL) + list(UNARY) if k not in model.class_assigns(ap)]
+    ctx.check(not missing, R, "ArrayProxy:coverage", "every operator method of Value is proxied",
+              f"ArrayProxy does not proxy {missing}", f"{AST_PY}:{ap.lineno}")
+    fp = model.func(f"{AST_PY}::_proxy_value.inner")
+    ok = "return getattr(Value.cast(self), name)(*args, **kwargs)" in unparse(fp)
+    ctx.check(ok, R, "_proxy_value", "getattr(Value.cast(self), name)(*args, **kwargs)", "_proxy_value must forward to the cast value",
+              f"{AST_PY}:{fp.lineno}")
+
+
+# ----------------------------------------------------------------------------------------------- R-01i
+
+def r01i(model, ctx):
+    """derived operators: constant folding of part-selects, sign-preserving rewrites, rotate mirror symmetry"""
+    from ..engine.norm import poly, poly_sub, poly_text
+    from ..engine.symx import subst
+    R = "R-01i"
+    for meth, stride_src in (("bit_select", "1"), ("word_select", "width")):
+        f = model.func(f"{AST_PY}::Value.{meth}")
+        ifs = [s_ for s_ in f.body if isinstance(s_, ast.If) and "type(offset) is Const" in unparse(s_.test)]
+        need(len(ifs) == 1, f"Value.{meth}: constant-offset shortcut not found")
+        ret = ifs[0].body[-1]
+        m = pmatch("self[_V_A:_V_B]", ret.value) if isinstance(ret, ast.Return) else None
+        parts = [n for n in ast.walk(f) if isinstance(n, ast.Call) and dotted(n.func) == "Part"]
+        ok = m is not None and len(parts) == 1
+        if ok:
+            kw = {k.arg: unparse(k.value) for k in parts[0].keywords}
+            stride = kw.get("stride")
+            okp = [unparse(a) for a in parts[0].args] == ["self", "offset", "width"] and stride == stride_src
+            start, length = poly(m["_V_A"]), poly_sub(poly(m["_V_B"]), poly(m["_V_A"]))
+            want_start = poly(ast.parse(f"offset.value * ({stride_src})", mode="eval").body)
+            ok = okp and start == want_start and length == poly(ast.parse("width", mode="eval").body)
+        ctx.check(ok, R, f"Value.{meth}:const-fold", f"constant offset k folds to self[k*{stride_src} : k*{stride_src} + width], same as Part(stride={stride_src})",
+                  f"Value.{meth}: the constant-offset shortcut must select the window [offset*stride, +width) of the Part it replaces "
+                  f"(stride={stride_src}); found {unparse(ret.value) if isinstance(ret, ast.Return) else '-'} vs "
+                  f"{unparse(parts[0]) if parts else '-'}", f"{AST_PY}:{f.lineno}")
+    # sign-preserving rewrites: signed branch == unsigned branch + .as_signed()
+    for meth in ("shift_left", "shift_right"):
+        f = model.func(f"{AST_PY}::Value.{meth}")
+        ifs = [s_ for s_ in f.body if isinstance(s_, ast.If) and unparse(s_.test) == "self.shape().signed"]
+        need(len(ifs) == 1, f"Value.{meth}: signedness split not found")
+        rs = [x for x in ifs[0].body if isinstance(x, ast.Return)]
+        ru = [x for x in ifs[0].orelse if isinstance(x, ast.Return)]
+        ok = len(rs) == 1 and len(ru) == 1
+        if ok:
+            m = pmatch("_V_X.as_signed()", rs[0].value)
+            ok = m is not None and dump(m["_V_X"]) == dump(ru[0].value)
+        ctx.check(ok, R, f"Value.{meth}:sign", "signed result = unsigned construction reinterpreted with as_signed()",
+                  f"Value.{meth}: the signed branch must be the unsigned branch's expression with .as_signed() (the sign must not "
+                  f"be lost); found {unparse(rs[0].value) if rs else '-'} / {unparse(ru[0].value) if ru else '-'}", f"{AST_PY}:{f.lineno}")
+    f = model.func(f"{AST_PY}::Value.shift_left")
+    ok = any(isinstance(x, ast.Return) and unparse(x.value) == "Cat(Const(0, amount), self)" for x in ast.walk(f)) and \
+        "if amount < 0:\n        return self.shift_right(-amount)" in unparse(f)
+    ctx.check(ok, R, "Value.shift_left", "Cat(Const(0, amount), self); negative amounts shift right",
+              "shift_left must prepend `amount` zero bits below self and delegate negative amounts to shift_right", f"{AST_PY}:{f.lineno}")
+    f = model.func(f"{AST_PY}::Value.shift_right")
+    t = unparse(f)
+    ok = "if amount >= len(self):\n            amount = len(self) - 1" in t and "return self[amount:]" in t and \
+        "if amount < 0:\n        return self.shift_left(-amount)" in t
+    ctx.check(ok, R, "Value.shift_right", "self[amount:]; a signed value keeps at least its sign bit",
+              "shift_right must drop the low `amount` bits, clamping the amount to len-1 for signed values (the sign bit remains)",
+              f"{AST_PY}:{f.lineno}")
+    # rotates: mirror symmetry (rotate_left(n) == rotate_right(-n)) and the modulo reduction
+    fl, fr = model.func(f"{AST_PY}::Value.rotate_left"), model.func(f"{AST_PY}::Value.rotate_right")
+    rl = [x for x in fl.body if isinstance(x, ast.Return)][-1].value
+    rr = [x for x in fr.body if isinstance(x, ast.Return)][-1].value
+    neg = ast.UnaryOp(op=ast.USub(), operand=ast.Name(id="amount", ctx=ast.Load()))
+    mirrored = subst(rr, {"amount": neg})
+    ok = dump(mirrored) == dump(rl) and pmatch("Cat(self[amount:], self[:amount])", rr) is not None
+    ctx.check(ok, R, "Value.rotate_left/right:mirror", "rotate_right = Cat(self[n:], self[:n]); rotate_left is its mirror image (n -> -n)",
+              f"rotate_right must be Cat(self[amount:], self[:amount]) (the upper part moves to the bottom) and rotate_left the same "
+              f"with -amount; found {unparse(rr)} / {unparse(rl)}", f"{AST_PY}:{fl.lineno}")
+    for f in (fl, fr):
+        t = unparse(f)
+        ok = "if len(self) != 0:\n        amount %= len(self)" in t
+        ctx.check(ok, R, f"Value.{f.name}:modulo", "amount reduced modulo len(self) (when non-empty)",
+                  f"Value.{f.name} must reduce the amount modulo len(self) (guarding the empty value)", f"{AST_PY}:{f.lineno}")
+    f = model.func(f"{AST_PY}::Value.__abs__")
+    t = unparse(f)
+    ok = "if self.shape().signed:\n        return Mux(self >= 0, self, -self)[:len(self)]\n    else:\n        return self" in t
+    ctx.check(ok, R, "Value.__abs__", "signed: Mux(self >= 0, self, -self) truncated to len(self); unsigned: self",
+              "abs must negate exactly when the value is negative and keep the operand's width", f"{AST_PY}:{f.lineno}")
+    f = model.func(f"{AST_PY}::Value.replicate")
+    ok = any(isinstance(x, ast.Return) and unparse(x.value) == "Cat((self for _ in range(count)))" for x in f.body)
+    ctx.check(ok, R, "Value.replicate", "Cat(self for _ in range(count))", "replicate must concatenate `count` copies", f"{AST_PY}:{f.lineno}")
+    f = model.func(f"{AST_PY}::Mux")
+    ok = any(isinstance(x, ast.Return) and unparse(x.value) == "SwitchValue(sel, ((0, val0), (None, val1)), src_loc_at=1)" for x in f.body)
+    ctx.check(ok, R, "Mux", "sel == 0 -> val0, otherwise val1", "Mux(sel, val1, val0) must choose val0 exactly when sel is zero", f"{AST_PY}:{f.lineno}")
+    f = model.func(f"{AST_PY}::Value.__getitem__")
+    t = unparse(f)
+    ok = "if key < 0:\n            key += length\n        return Slice(self, key, key + 1, src_loc_at=1)" in t and \
+        "(start, stop, step) = key.indices(length)" in t.replace("start, stop, step = key.indices(length)", "(start, stop, step) = key.indices(length)") and \
+        "return Cat((self[i] for i in range(start, stop, step)))" in t and "return Slice(self, start, stop, src_loc_at=1)" in t
+    ctx.check(ok, R, "Value.__getitem__", "int -> one-bit slice (negative indices wrap); slice -> Python slice semantics",
+              "indexing must follow Python sequence semantics: int k -> Slice(k, k+1) with negative wrap, slices via key.indices(len)",
+              f"{AST_PY}:{f.lineno}")
+    # Array indexing: ArrayProxy.as_value builds a SwitchValue over the elements in order
+    f = model.func(f"{AST_PY}::ArrayProxy.as_value")
+    t = unparse(f)
+    ok = False
+    for c in ast.walk(f):
+        if isinstance(c, ast.Call) and dotted(c.func) == "SwitchValue" and len(c.args) >= 2 and \
+                unparse(c.args[0]) == "self._index" and isinstance(c.args[1], ast.GeneratorExp):
+            g = c.args[1]
+            ok = len(g.generators) == 1 and unparse(g.generators[0].iter) == "enumerate(self._elems)" and \
+                unparse(g.elt) == unparse(g.generators[0].target)
+    ctx.check(ok, R, "ArrayProxy.as_value", "SwitchValue over (index, element) pairs in order", "array indexing must lower to a "
+              "SwitchValue keyed by element index", f"{AST_PY}:{f.lineno}")
+
+
+RULES = [("R-01i", r01i), ("R-01f", r01f), ("R-01e", r01e), ("R-01a", r01a), ("R-01b", r01b), ("R-01c", r01c), ("R-01d", r01d), ("R-01g", r01g), ("R-01h", r01h)]
